@@ -136,5 +136,6 @@ Qed.
 
 Lemma pack4_single p : length p = 1 -> pack4 p 0 = nth 0 p 0%N.
 Proof.
-  intros H. unfold pack4. simpl. rewrite !nth_overflow by lia. lia.
+  intros H. destruct p as [|x [|y p]]; simpl in H; try lia.
+  unfold pack4. cbn [Nat.mul Nat.add nth]. lia.
 Qed.
